@@ -179,7 +179,7 @@ sys.path.insert(0, %r); sys.path.insert(0, %r)
 import numpy, awkward as ak, vector
 vector.register_awkward()
 MODE = %r
-READ = [] if MODE in ("ops", "chain") else ["x", "y", "rho", "phi", "z", "theta", "eta", "t", "tau", "px", "py", "pt", "pz", "E", "e", "energy", "M", "m", "mass", "mag", "p", "Et", "Mt", "tau2", "mass2", "t2", "energy2"]
+READ = [] if MODE in ("ops", "chain", "assign") else ["x", "y", "rho", "phi", "z", "theta", "eta", "t", "tau", "px", "py", "pt", "pz", "E", "e", "energy", "M", "m", "mass", "mag", "p", "Et", "Mt", "tau2", "mass2", "t2", "energy2"]
 SYN = {"x": ["px"], "y": ["py"], "rho": ["pt"], "z": ["pz"], "t": ["E", "e", "energy"], "tau": ["M", "m", "mass"]}
 vals = {"x": [3.0, -1.5, 0.25], "y": [4.0, 2.0, -0.5], "rho": [5.0, 2.5, 0.75], "phi": [0.3, -2.0, 1.1], "z": [1.0, -2.0, 0.5], "theta": [0.4, 2.0, 1.3],
         "eta": [0.5, -1.2, 2.0], "t": [20.0, 11.0, 7.5], "tau": [4.0, 0.25, 1.5]}
@@ -219,7 +219,7 @@ for az in (("x", "y"), ("rho", "phi")):
                     if dim == 4:
                         OPS += [("v.boostX(0.3)", lambda v: v.boostX(0.3)), ("v.to_xyzt()", lambda v: v.to_xyzt()), ("v.to_rhophietatau()", lambda v: v.to_rhophietatau()),
                                 ("v.to_beta3()", lambda v: v.to_beta3())]
-                    if MODE == "chain":
+                    if MODE in ("chain", "assign"):
                         OPS = []
                     if MODE == "ops":
                         OPS = [o for o in OPS if not o[0].startswith(("v.to_", "v.rotate", "v.boost"))]
@@ -292,6 +292,48 @@ for az in (("x", "y"), ("rho", "phi")):
                                         continue
                                     if any(abs(a_ - b_) > 1e-12 * max(1.0, abs(b_)) for a_, b_ in zip(got, want)):
                                         bad.append(f"{syn}: ({o1} then {o2}).{rd} on a Momentum{dim}D array with raw fields {names} = {got}; with geometric fields {geo} it is {want}")
+# item ASSIGNMENT on Awkward vector arrays (arr[name] = values replaces a field of the same array object): after every reader has been
+# used once (anything cached is warm), a field is assigned; every reader must then agree with a FRESH array built from the new columns
+if MODE in ("all", "assign"):
+    ALLREAD = ["x", "y", "rho", "phi", "z", "theta", "eta", "t", "tau", "px", "py", "pt", "pz", "E", "e", "energy", "M", "m", "mass", "mag", "p", "Et", "Mt", "tau2", "mass2", "t2",
+               "energy2", "rapidity", "beta", "gamma", "costheta"]
+    base = {"x": [3.0, -1.5, 0.25], "y": [4.0, 2.0, -0.5], "rho": [5.0, 2.5, 0.75], "phi": [0.3, -2.0, 1.1], "z": [1.0, -2.0, 0.5], "theta": [0.4, 2.0, 1.3],
+            "eta": [0.5, -1.2, 2.0], "t": [20.0, 11.0, 7.5], "tau": [4.0, 0.25, 1.5]}
+    GEN = {"px": "x", "py": "y", "pt": "rho", "pz": "z", "E": "t", "e": "t", "energy": "t", "M": "tau", "m": "tau", "mass": "tau"}
+    specs = [(["px", "py", "pz", "E"], "Momentum4D"), (["pt", "phi", "eta", "mass"], "Momentum4D"), (["x", "y", "z", "t"], "Vector4D"), (["rho", "phi", "theta", "tau"], "Vector4D"),
+             (["x", "y", "theta", "energy"], "Momentum4D"), (["px", "py", "pz"], "Momentum3D"), (["rho", "phi", "eta"], "Vector3D"), (["pt", "phi"], "Momentum2D"), (["x", "y"], "Vector2D")]
+    for names, rname in specs:
+        cols = {nm: list(base[GEN.get(nm, nm)]) for nm in names}
+        for how in ("ak.zip", "vector.zip"):
+            for f in names:
+                arr = ak.zip(cols, with_name=rname) if how == "ak.zip" else vector.zip(cols)
+                fld = f if f in ak.fields(arr) else GEN.get(f, f)        # vector.zip renames momentum spellings to the geometric names
+                for rd in ALLREAD:                                       # warm-up: every reader once
+                    try:
+                        getattr(arr, rd)
+                    except Exception:
+                        pass
+                newv = [1.5 * v + 0.25 for v in cols[f]]
+                try:
+                    arr[fld] = newv
+                except Exception as e:
+                    bad.append(f"assign: {how} {rname}{names}: arr[{fld!r}] = ... raises {type(e).__name__}: {str(e)[:60]}")
+                    continue
+                fresh_cols = dict(cols)
+                fresh_cols[f] = newv
+                fresh = ak.zip(fresh_cols, with_name=rname) if how == "ak.zip" else vector.zip(fresh_cols)
+                for rd in ALLREAD:
+                    if not hasattr(fresh, rd):
+                        continue
+                    n += 1
+                    try:
+                        want = ak.to_list(getattr(fresh, rd))
+                        got = ak.to_list(getattr(arr, rd))
+                    except Exception as e:
+                        bad.append(f"assign: {how} {rname}{names} after arr[{fld!r}] = ...: reading .{rd} raises {type(e).__name__}: {str(e)[:60]}")
+                        continue
+                    if any((a_ != a_) != (b_ != b_) or (a_ == a_ and abs(a_ - b_) > 1e-12 * max(1.0, abs(b_))) for a_, b_ in zip(got, want)):
+                        bad.append(f"assign: {how} {rname}{names}: after reading every property once and then arr[{fld!r}] = {newv}, .{rd} = {got}; a fresh array with the new column gives {want}")
 print("JSON" + json.dumps([bad, n]))
 """
 RAW_REPLAY = ("import sys; sys.path.insert(0, %r); sys.path.insert(0, %r)\nfrom harness import c14\nbad, n = c14.raw_awkward_spellings()\nassert not bad, bad[0]\n"
